@@ -227,7 +227,8 @@ inductive Op where
   | endCapture
   | enter (w : Wrap)               -- start of an include / super evaluation
   | leave                          -- its normal end
-  | fail (id : Nat)                -- an error that has nothing to do with the output
+  | panic                          -- user code unwinds (e.g. `to_string()` of a value whose `Display` fails)
+  | fail (e : Err)                 -- an error not caused by the sink: a template error (`.other`), or user formatting code returning `fmt::Error` by itself (`Err.fromFmt`)
   deriving DecidableEq, Repr
 
 structure St (B : Type) where
@@ -252,7 +253,8 @@ def step {B : Type} [FmtWrite B] (op : Op) (st : St B) : St B × Halt :=
     | .panic => (st, some .panic)
   | .enter w => ({ st with wraps := w :: st.wraps }, none)
   | .leave => ({ st with wraps := st.wraps.tail }, none)
-  | .fail id => (st, some (.ok (wrapAll st.wraps (.other id))))
+  | .fail e => (st, some (.ok (wrapAll st.wraps e)))
+  | .panic => (st, some .panic)
 
 /-- the evaluation loop: stops at the first error (`ok!`/`ctx_ok!` at every emit site) -/
 def run {B : Type} [FmtWrite B] : List Op → St B → St B × Chk (Except Err Unit)
@@ -310,8 +312,10 @@ def erase : Nat → List Op → List Op
   | d, .enter w :: ops => .enter w :: erase d ops
   | d, .leave :: ops => .leave :: erase d ops
   | d, .fail id :: ops => .fail id :: erase d ops
+  | d, .panic :: ops => .panic :: erase d ops
 
-/-- no `end_capture` without a matching `begin_capture` (what the code generator guarantees) -/
+/-- no `end_capture` without a matching `begin_capture` (what the code generator guarantees)
+    and no user code that unwinds -/
 def balanced : Nat → List Op → Bool
   | _, [] => true
   | d, .beginCapture _ :: ops => balanced (d + 1) ops
@@ -321,6 +325,7 @@ def balanced : Nat → List Op → Bool
   | d, .enter _ :: ops => balanced d ops
   | d, .leave :: ops => balanced d ops
   | d, .fail _ :: ops => balanced d ops
+  | _, .panic :: _ => false
 
 /-! ## structured renders
 
@@ -334,7 +339,7 @@ sequence — without looking at the writer. -/
 inductive Prog where
   | skip
   | emit (c : Chunk)
-  | fail (id : Nat)
+  | fail (e : Err)
   | seq (a b : Prog)
   /-- `begin_capture(mode)`, body, `end_capture()`; the value (`none` for a discard) is available
       to everything that follows -/
@@ -348,7 +353,7 @@ def exec {B : Type} [FmtWrite B] : Prog → Out B → Out B × Chk (Except Err U
   | .emit c, o =>
     let r := o.write c
     (r.1, if r.2 then .ok (.ok ()) else .ok (.error Err.fromFmt))
-  | .fail id, o => (o, .ok (.error (.other id)))
+  | .fail e, o => (o, .ok (.error e))
   | .seq a b, o =>
     match exec a o with
     | (o', .ok (.ok ())) => exec b o'
